@@ -77,6 +77,56 @@ PLAN = {
 }
 
 MANIFEST_TEXT = {
+    "C04": {
+        "text": "Bounded stand-in, not a proof: the postcondition of Grammar.parse_forest / Fandango.parse (every yielded tree is a "
+                "derivation per an independent checker over the grammar IR, no helper symbols, serialisation == input, API trees "
+                "satisfy constraints re-evaluated by fresh constraint objects) is checked at run time on the real functions over 29 "
+                "specs x (words of an independently enumerated language, single-edit near misses).",
+        "note": "no contract-level proof of the table-driven Earley parser is within reach of the VC generator; bound: words up to 5 "
+                "atoms (11 for bit specs); parse calls over 20 s are left to C06.",
+        "technique": "bounded run-time contract check of the real parser against an independent derivation checker",
+    },
+    "C05": {
+        "text": "Bounded stand-in: for fuzzed trees of 29 specs parse(serialise(t)) yields a tree with identical serialisation and "
+                "cli.utils.validate does not raise; every word of the independently enumerated bounded language is accepted. "
+                "Three specs fail (recorded known findings: empty-matching regex, non-ASCII text next to bits, validate on text+bits).",
+        "note": "bounded enumeration (words up to 5 atoms), seeds from VERIF_SEED; no proof.",
+        "technique": "bounded run-time contract check (round trip) with an independent language enumerator",
+    },
+    "C08": {
+        "text": "Bounded stand-in: the text Fandango would exec for a Python snippet (real front end: parse_tree, splitter, "
+                "PythonProcessor, ast.unparse) re-parsed by CPython must have the same AST as CPython's parse of the original, or "
+                "the snippet must be rejected with an error; ~850 snippets (expression forms, statement forms, nesting depth 2, "
+                "fragments of the repository's .fan files). Five kinds of silent alteration remain (known findings).",
+        "note": "enumeration over hand-listed construct forms, not a proof; constant-only f-strings are treated as equal to the plain string.",
+        "technique": "bounded run-time contract check (AST preservation) over an enumerated corpus",
+    },
+    "C10": {
+        "text": "Per-function contracts on the real tree code, all VCs discharged for any number of children (loop invariants over "
+                "array-backed child fields): set_children/add_child establish parent links and call invalidate_hash; "
+                "invalidate_hash clears the cached hash, recomputes size = 1 + sum of child sizes and recurses to the ancestors; "
+                "symbol/sender/recipient setters invalidate; __hash__ covers symbol, sender, recipient and the children's hashes "
+                "and is cached; __getitem__ (index and slice) writes no field of a pre-existing node.",
+        "note": "composition of the local facts into the global invariant over arbitrary operation sequences is not mechanised; "
+                "deepcopy, replace_multiple, mutation and crossover are not yet under contract; child.__hash__ is assumed to only "
+                "fill the child's own cache; hash collisions excluded by assumption.",
+        "technique": "contract-based deductive verification: own VC generator, heap arrays per child list, loop invariants, z3",
+    },
+    "C13": {
+        "text": "Bounded stand-in: on the real IterativeParser, for every word (1..7 units) of 26 specs and ALL compositions into "
+                "fragments, the complete parses after the last fragment equal those of the whole word; can_continue() is False "
+                "only if no bounded-language word extends the prefix.",
+        "note": "exhaustive over compositions, bounded over words (6/40 per spec); no proof (same reason as C04).",
+        "technique": "bounded run-time contract check, exhaustive over fragmentations of short words",
+    },
+    "C19": {
+        "text": "Bounded stand-in: PacketForecaster.predict(history) must offer exactly the follow set of the message-level "
+                "grammar and report completeness exactly for full interactions; follow sets come from an independent "
+                "enumeration of the message-level language over the grammar IR; 15 protocol specs, all histories up to depth 4/6.",
+        "note": "bounded; histories are recorded as trees by an INCOMPLETE parse as in the repository's own tests; slicing to a "
+                "subset of parties (slice_parties) is not exercised.",
+        "technique": "bounded run-time contract check against an independent follow-set oracle",
+    },
     "C06": {
         "text": "Termination of the Earley work-list is reduced to a proof obligation on the real ParseState.__eq__/__hash__ "
                 "(equal states must hash equally, else Column.add admits unboundedly many states): generated and sent to the "
